@@ -39,7 +39,7 @@ pub enum Outcome {
 /// one rename request: at link `site` of note `from`, to `new_name`
 pub fn check_rename(l0: &Lib, ext: &str, from: &str, site: &LinkOcc, new_name: &str) -> Outcome {
     let server = act::server(l0, ext, true);
-    let fdir = Key::from_file_name(from).parent();
+    let fdir = crate::oracle::md::dir_of(from);
     let old = md::resolve(&site.dest, &fdir);
     let res = act::rename(&server, from, site.line as u32, (site.col + 1) as u32, new_name);
     let new_key = Key::from_file_name(new_name).to_string();
@@ -65,7 +65,7 @@ pub fn check_rename(l0: &Lib, ext: &str, from: &str, site: &LinkOcc, new_name: &
     for (k, before_text) in l0.iter() {
         let k1 = if *k == old { new_key.clone() } else { k.clone() };
         let after_text = l1.get(&k1).cloned().unwrap_or_default();
-        let (d0, d1) = (Key::from_file_name(k).parent(), Key::from_file_name(&k1).parent());
+        let (d0, d1) = (crate::oracle::md::dir_of(k), crate::oracle::md::dir_of(&k1));
         let (r0, r1) = (md::read(before_text, &d0), md::read(&after_text, &d1));
         let links_to_old = r0.links.iter().any(|l| !md::is_external(&l.dest) && target_of(l, &d0) == old);
         if !links_to_old && *k != old {
@@ -141,7 +141,7 @@ pub fn run(ctx: &Ctx, model: &mut Model, rep: &mut Report) {
     let parse_lib = |v: &serde_json::Value| -> Vec<(String, String)> { v.as_array().map(|a| a.iter().map(|p| (p[0].as_str().unwrap().to_string(), p[1].as_str().unwrap().to_string())).collect()).unwrap_or_default() };
     let run_witness = |lib: &[(String, String)], from: &str, new_name: &str| -> Option<String> {
         let l0 = act::formatted(lib, "")?;
-        let dir = Key::from_file_name(from).parent();
+        let dir = crate::oracle::md::dir_of(from);
         let site = md::read(l0.get(from)?, &dir).links.into_iter().find(|l| !md::is_external(&l.dest))?;
         match check_rename(&l0, "", from, &site, new_name) {
             Outcome::Bad(w) => Some(w),
@@ -174,7 +174,7 @@ pub fn run(ctx: &Ctx, model: &mut Model, rep: &mut Report) {
         let Some(l0) = act::formatted(&lib, ext) else { continue };
         let mut sites = vec![];
         for (k, t) in l0.iter() {
-            let dir = Key::from_file_name(k).parent();
+            let dir = crate::oracle::md::dir_of(k);
             for l in md::read(t, &dir).links {
                 if !md::is_external(&l.dest) && l.kind != "auto" {
                     sites.push((k.clone(), l));
@@ -194,7 +194,7 @@ pub fn run(ctx: &Ctx, model: &mut Model, rep: &mut Report) {
             }
             tried += 1;
             for new_name in ["zz_new", taken.as_str(), "d/zz_new"] {
-                let fdir = Key::from_file_name(from).parent();
+                let fdir = crate::oracle::md::dir_of(from);
                 let old = md::resolve(&site.dest, &fdir);
                 let text = format!("{:?}{}{}{}{}", l0, from, site.line, site.col, new_name);
                 rep.case(&text, l0.contains_key(&old));
